@@ -24,6 +24,12 @@ pub struct ZA64 { pub x: u32 }
 
 #[derive(epserde::Epserde, Clone, Copy)]
 #[repr(C)]
+#[repr(align(16))]
+#[zero_copy]
+pub struct ZB16 { pub lo: u64, pub hi: u64 }
+
+#[derive(epserde::Epserde, Clone, Copy)]
+#[repr(C)]
 #[zero_copy]
 pub struct ZUnit {}
 
